@@ -103,7 +103,7 @@ def asc2(rng):
     return bytes([(obj << 3) | (sidx >> 1), ((sidx & 1) << 7) | (chan << 3)])
 
 
-def mux_case(rng, mode, nframes, big, empty_video=False):
+def mux_case(rng, mode, nframes, big, empty_video=False, late=False):
     sps = b"" if rng.random() < 0.1 else bytes([0x67]) + rbytes(rng, rng.randint(0, 40))
     pps = b"" if rng.random() < 0.1 else bytes([0x68]) + rbytes(rng, rng.randint(0, 8))
     frames = []
@@ -124,10 +124,46 @@ def mux_case(rng, mode, nframes, big, empty_video=False):
             p = ns(rng)
             frames.append([False, p, p, rbytes(rng, n)])
     want = sum(1 for f in frames if (not f[0]) or (len(f[3]) > 0 and not 7 <= (f[3][0] & 0x1f) <= 9))
+    if late:
+        frames, sps, pps = late_params(rng, frames, sps, pps)
     return [mode, sps, pps, asc2(rng), frames, want]
 
 
-def hls_case(rng, nframes):
+def is_set(f):
+    return f[0] == 2 and not isinstance(f[0], bool)
+
+
+def is_idr(f):
+    return (not is_set(f)) and f[0] and len(f[3]) > 0 and (f[3][0] & 0x1f) == 5
+
+
+def late_params(rng, frames, sps, pps):
+    """the meta is EMPTY when the muxer is created (SDP without sprop-parameter-sets); the
+    parameter sets are stored into it later — before the first IDR — and, sometimes, replaced
+    between two IDRs.  Returns (events, sps-at-creation, pps-at-creation)."""
+    if not sps:
+        sps = bytes([0x67, 0x64]) + rbytes(rng, 6)
+    if not pps:
+        pps = bytes([0x68]) + rbytes(rng, 3)
+    idrs = [i for i, f in enumerate(frames) if is_idr(f)]
+    first = idrs[0] if idrs else len(frames)
+    at = rng.randint(0, first)
+    ev = list(frames)
+    if rng.random() < 0.3 and at < first:
+        # SPS and PPS arrive separately
+        mid = rng.randint(at, first)
+        ev.insert(mid, [2, sps, pps])
+        ev.insert(at, [2, sps, b""])
+    else:
+        ev.insert(at, [2, sps, pps])
+    if len(idrs) >= 2 and rng.random() < 0.5:
+        k = rng.randint(1, len(idrs) - 1)
+        pos = next(i for i, f in enumerate(ev) if f is frames[idrs[k]])
+        ev.insert(rng.randint(pos - 1 if pos > 0 else 0, pos), [2, bytes([0x67, 0x42]) + rbytes(rng, 9), bytes([0x68, 0xce]) + rbytes(rng, 2)])
+    return ev, b"", b""
+
+
+def hls_case(rng, nframes, late=False):
     """realistic interleaving for the HLS path: 25 fps video with key frames every ~1 s so that
     segments roll over, AAC frames every ~23 ms (several per 100 ms group) of DIFFERENT sizes,
     some timestamp jitter and an occasional jump (audio resync); closed by four video frames
@@ -169,21 +205,76 @@ def hls_case(rng, nframes):
     T2 = T1 + 40 * MS + (frag + 1) * 1000 * MS
     frames += [[True, T1, T1, nal(rng, 50, 1)], [True, T1 + 40 * MS, T1 + 40 * MS, nal(rng, 300, 5)],
                [True, T2, T2, nal(rng, 50, 1)], [True, T2 + 40 * MS, T2 + 40 * MS, nal(rng, 20, 5)]]
+    if late:
+        frames, sps, pps = late_params(rng, frames, sps, pps)
     return [0, sps, pps, asc2(rng), frames, frag, rate]
+
+
+E2E_SPS = bytes.fromhex("6764001facd9405005ba10000003001000000303c8f18319 60".replace(" ", ""))
+E2E_PPS = bytes.fromhex("68efbcb0")
+
+
+def e2e_case(rng):
+    """source NAL units for media.NewStream (SDP without sprop): SPS, PPS in-band in front of every
+    IDR (a real, decodable SPS — the depacketizer parses it), 25 fps, one GOP that exceeds the 5 s
+    fragment so that one natural cut happens, then the four closing frames (two more cuts): three
+    closed segments in all, never more than the playlist keeps"""
+    MS = 1000000
+    frames = []
+    t = rng.randrange(1, 1000) * MS
+
+    def key(n, marker=b""):
+        nonlocal t
+        frames.append([True, t, t, E2E_SPS])
+        frames.append([True, t, t, E2E_PPS if rng.random() < 0.7 else E2E_PPS + b"\x80"])
+        frames.append([True, t, t, bytes([0x65]) + marker + rbytes(rng, n)])
+        t += 40 * MS
+
+    def inter(n):
+        nonlocal t
+        frames.append([True, t, t, bytes([rng.choice([0x41, 0x01, 0x61])]) + rbytes(rng, n)])
+        t += 40 * MS
+
+    key(rng.randint(3, 1300))
+    for _ in range(rng.randint(126, 140)):          # > 5 s at 25 fps
+        inter(rng.randint(3, 500))
+    key(rng.randint(3, 1300))                        # natural cut
+    for _ in range(rng.randint(3, 40)):
+        inter(rng.randint(3, 500))
+    marker = bytes([0xC0, 0x9E]) + rbytes(rng, 14)
+    t += 6000 * MS
+    inter(20)
+    key(40, marker)                                  # cut 2; this key frame carries the marker
+    t += 6000 * MS
+    inter(20)
+    key(10)                                          # cut 3 closes the segment with the marker
+    return [0, b"", b"", bytes([0x12, 0x10]), frames, marker]
 
 
 def hls_nontrivial(c):
     # at least two audio frames of different sizes and a key frame
-    sizes = {len(f[3]) for f in c[4] if not f[0] and len(f[3]) > 0}
-    return len(sizes) >= 2 and any(f[0] and len(f[3]) > 0 and (f[3][0] & 0x1f) == 5 for f in c[4])
+    sizes = {len(f[3]) for f in c[4] if not is_set(f) and not f[0] and len(f[3]) > 0}
+    return len(sizes) >= 2 and any(is_idr(f) for f in c[4])
 
 
 def has_paramset(c):
-    return any(f[0] and len(f[3]) > 0 and 7 <= (f[3][0] & 0x1f) <= 9 for f in c[4])
+    return any((not is_set(f)) and f[0] and len(f[3]) > 0 and 7 <= (f[3][0] & 0x1f) <= 9 for f in c[4])
 
 
 def mux_nontrivial(c):
-    return any(f[0] and len(f[3]) > 0 for f in c[4]) and any(len(f[3]) > 0 for f in c[4])
+    fs = [f for f in c[4] if not is_set(f)]
+    return any(f[0] and len(f[3]) > 0 for f in fs) and any(len(f[3]) > 0 for f in fs)
+
+
+def late_nontrivial(c):
+    # an IDR is pushed after the parameter sets were stored into an initially empty meta
+    seen = False
+    for f in c[4]:
+        if is_set(f):
+            seen = seen or len(f[1]) > 0
+        elif is_idr(f) and seen:
+            return len(c[1]) == 0
+    return False
 
 
 def run(ck):
@@ -254,6 +345,22 @@ def run(ck):
     ck.stream("hls_segments", hls, None, "C09_hls", "C09_hls_ok", compare=False, nontrivial=hls_nontrivial,
               sig=lambda c, e, o: "hls", sample=1)
 
+    # 3d. parameter sets learned in-band: the meta is empty when the muxer / packetizers are created and is
+    # filled before the first IDR (and changed again between IDRs), through every entry point
+    latec = []
+    for i in range(600 if T else 90):
+        c = mux_case(rng, i % 3, rng.randint(3, 30 if T else 14), 3000 + 4000, late=True)
+        latec.append(c)
+    ck.stream("late_paramsets", latec, "C09_mux", "C09_mux", "C09_mux_ok", nontrivial=late_nontrivial,
+              sig=lambda c, e, o: "mux:late-paramsets", sample=1)
+    lateh = [hls_case(rng, rng.randint(40, 300 if T else 120), late=True) for _ in range(150 if T else 25)]
+    ck.stream("hls_late_paramsets", lateh, None, "C09_hls", "C09_hls_ok", compare=False, nontrivial=late_nontrivial,
+              sig=lambda c, e, o: "hls:late-paramsets", sample=1)
+    # 3e. end to end: media.NewStream, SDP without sprop-parameter-sets, SPS/PPS arrive as RTP packets
+    e2e = [e2e_case(rng) for _ in range(40 if T else 6)]
+    ck.stream("e2e_inband_paramsets", e2e, None, "C09_e2e", "C09_e2e_ok", compare=False, timeout=600,
+              sig=lambda c, e, o: "e2e:inband-paramsets", sample=1)
+
     # 4. malformed: empty video payloads (Payload[0] on an empty slice); result left open by the property
     bad = [mux_case(rng, 0, rng.randint(1, 8), 7000, empty_video=True) for _ in range(300 if T else 40)]
     ck.stream("malformed", bad, "C09_mux", "C09_mux", "C09_mux_loose_ok", compare=False,
@@ -275,6 +382,8 @@ def run(ck):
              "demultiplexer oracle applied to the implementation's bytes; non-trivial = at least one frame is actually written; "
              "HLS path: realistic interleaved video/AAC sequences (different AAC sizes, several per 100 ms group, key frames rolling segments over) "
              "through the packetizers into a real hls.SegmentGenerator, every segment read and checked by ok_hls; a deferring FrameWriter stream; "
+             "parameter sets stored into an initially empty shared video meta before the first IDR and replaced between IDRs (packetizers, NewMuxer, deferred, HLS); "
+             "end to end media.NewStream + RTP with an SDP without sprop-parameter-sets, HLS segments checked by ok_hls_es; "
              "separate malformed stream (empty video payloads); NewADTSHeader and CRC-32/MPEG component streams"
              % (top, big // 1024),
         trusted=["the ISO/IEC 13818-1 / 13818-7 / H.264 Annex B reading embodied in Model/C09TsDemux.v, C09Adts.v (adts_parse1) and "
@@ -282,6 +391,7 @@ def run(ck):
                  "harness hook mpegts.VerifNewFrame (sets the unexported key flag)"],
         assumptions=["frames carry PID 256 or 257 (other PIDs share the video counter in the Go writer)",
                      "AudioSpecificConfig is a plain two-byte configuration (object type 1..4, sampling index 0..12, channels 0..7)",
+                     "end-to-end stream: time stamps are not checked (DTS is wall clock there), structure and Annex-B content only",
                      "source time stamps 0 <= ns with ns*90000 < 2^63 (beyond, about 28.5 h, the int64 conversion to 90 kHz overflows)",
                      "AAC frame + 7 < 8192 (13-bit ADTS frame_length)",
                      "AUD is demanded before NAL unit types 1, 5, 6 only; in-band SPS/PPS/AUD (7..9) are replaced by the stream's own"])
